@@ -249,10 +249,11 @@ def run(chk, prog):
         if depth > 8:
             return None
         k2 = e.get("k")
-        if k2 == "Bin" and e["op"] in (">", "<") and zero_lit(e["b"]):
+        if k2 == "Bin" and e["op"] in (">", "<", ">=", "<=", "==", "!=") and zero_lit(e["b"]):
             base, idx = elem(e["a"])
             if base is not None and base.get("n") == "direction" and sub_axis(idx, a, lv):
-                return (sign == "+") == (e["op"] == ">")
+                val = {"+": 1, "-": -1, "0": 0}[sign]
+                return {">": val > 0, "<": val < 0, ">=": val >= 0, "<=": val <= 0, "==": val == 0, "!=": val != 0}[e["op"]]
             return None
         if k2 == "Bin" and e["op"] in ("||", "&&"):
             x, y = ev_bool(e["a"], a, sign, lv, depth + 1), ev_bool(e["b"], a, sign, lv, depth + 1)
@@ -416,6 +417,138 @@ def run(chk, prog):
                                 "index step `%s` evaluates to %s" % (C.pretty(rhs)[:80], r if r[0] == "int" else
                                                                      "an expression the case analysis cannot reduce"),
                                 function=fn["full"], construct="index step")
+    # ---- T3 (axis-aligned packets): for direction[a] == 0 the wall distance of axis a is never the minimum and never NaN --
+    # abstract evaluation over {zero, pos, nonneg, fin, inf, max, nan?} of the value stored in l[a] in the case
+    # direction[a] == 0, the packet anywhere in the closed cell (on a face included: position - cell_low may be exactly 0)
+    def xeval(e, a, lv, depth=0):
+        e = C.strip_casts(e)
+        if depth > 10:
+            return "?"
+        k2 = e.get("k")
+        if k2 == "Float" or k2 == "Int":
+            if e.get("mac") == "DBL_MAX":
+                return "max"
+            try:
+                v = float(str(e.get("sp", e["v"])).rstrip("fFlL"))
+            except ValueError:
+                return "?"
+            return "zero" if v == 0 else ("max" if v >= 1e300 else ("pos" if v > 0 else "fin"))
+        if k2 == "Ref" and e.get("mac") == "DBL_MAX":
+            return "max"
+        if k2 == "Cond":
+            c = ev_bool(e["c"], a, "0", lv, depth + 1)
+            if c is None:
+                x, y = xeval(e["a"], a, lv, depth + 1), xeval(e["b"], a, lv, depth + 1)
+                return x if x == y else "?"
+            return xeval(e["a"] if c else e["b"], a, lv, depth + 1)
+        if k2 == "Ref" and e.get("id") in consts:
+            return xeval(consts[e["id"]], a, lv, depth + 1)
+        if k2 == "Call" and (e.get("fn") or e.get("n") or "").split("::")[-1] in ("abs", "fabs") and len(e["a"]) == 1:
+            x = xeval(e["a"][0], a, lv, depth + 1)
+            return {"fin": "nonneg", "-inf": "inf"}.get(x, x)
+        if k2 == "Call" and (e.get("n") in ("infinity", "max") and "numeric_limits" in (e.get("fn") or "")):
+            return "inf" if e["n"] == "infinity" else "max"
+        base, idx = elem(e)
+        if base is not None and sub_axis(idx, a, lv):
+            if base.get("n") == "direction":
+                return "zero"
+            if base.get("n") in ("cell_high", "cell_low", "position"):
+                return "fin"
+            if base.get("k") == "Ref" and base.get("id") in consts:
+                init = consts[base["id"]]
+                while init.get("k") == "Ctor" and len(init.get("a", [])) == 1:
+                    init = C.strip_casts(init["a"][0])
+                if init.get("k") in ("InitList", "Ctor") and len(init.get("a", [])) == 3:
+                    return xeval(init["a"][a], a, set(), depth + 1)
+                if init.get("k") == "Call" and init.get("op") in ("/", "*", "+", "-"):
+                    # a vector expression applied component by component
+                    args = ([init["obj"]] if init.get("obj") is not None else []) + list(init["a"])
+                    if len(args) == 2:
+                        def comp(x):
+                            x0 = C.strip_casts(x)
+                            if x0.get("k") == "Ref" and x0.get("n") == "direction":
+                                return "zero"
+                            return xeval(x0, a, set(), depth + 1)
+                        return combine(init["op"], comp(args[0]), comp(args[1]))
+            return "?"
+        if k2 == "Bin" and e["op"] in ("+", "-", "*", "/"):
+            # differences of positions within the closed cell
+            if e["op"] == "-":
+                ra, rb = resolve(e["a"], a, "0", lv), resolve(e["b"], a, "0", lv)
+                if ra[0] == "arr" and rb[0] == "arr" and (ra[1], rb[1]) in (("cell_high", "position"), ("position", "cell_low"),
+                                                                          ("cell_high", "cell_low")):
+                    return "nonneg"
+                if ra[0] == "arr" and rb[0] == "arr" and (ra[1], rb[1]) in (("cell_low", "position"), ("position", "cell_high")):
+                    return "nonpos"
+            return combine(e["op"], xeval(e["a"], a, lv, depth + 1), xeval(e["b"], a, lv, depth + 1))
+        if k2 == "Un" and e.get("op") == "-":
+            x = xeval(e["x"], a, lv, depth + 1)
+            return {"inf": "-inf", "-inf": "inf", "nonneg": "nonpos", "nonpos": "nonneg", "zero": "zero", "pos": "fin",
+                    "max": "fin"}.get(x, x)
+        return "?"
+
+    def combine(op, x, y):
+        if "?" in (x, y):
+            return "?"
+        if "nan?" in (x, y):
+            return "nan?"
+        infs = ("inf", "-inf")
+        if op == "/":
+            if y == "zero":
+                return "nan?" if x in ("zero", "nonneg", "nonpos", "fin") else ("inf" if x in ("pos", "max") else "nan?")
+            if y in infs:
+                return "nan?" if x in infs else "zero"
+            return "nan?" if False else ("inf" if x == "inf" else ("-inf" if x == "-inf" else "fin"))
+        if op == "*":
+            if x in infs or y in infs:
+                other = y if x in infs else x
+                if other in ("zero", "nonneg", "nonpos", "fin"):
+                    return "nan?"            # 0 * inf
+                if other in ("pos", "max"):
+                    return x if x in infs else y
+                if other in infs:
+                    return "inf" if x == y else "-inf"
+            if "zero" in (x, y):
+                return "zero"
+            if x in ("pos", "max") and y in ("pos", "max"):
+                return "pos"
+            if x in ("pos", "max", "nonneg") and y in ("pos", "max", "nonneg"):
+                return "nonneg"
+            return "fin"
+        if op in ("+", "-"):
+            if x in infs and y in infs:
+                return x if (x == y) == (op == "+") else "nan?"
+            if x in infs:
+                return x
+            if y in infs:
+                return y if op == "+" else {"inf": "-inf", "-inf": "inf"}[y]
+            return "fin"
+        return "?"
+
+    nz = 0
+    for x, stack in stack_iter(body, []):
+        if x.get("k") != "Bin" or x["op"] != "=":
+            continue
+        tb, ti = elem(x["a"])
+        if tb is None or tb.get("n") != "l":
+            continue
+        lv = loop_vars(stack)
+        for a in (0, 1, 2):
+            if not sub_axis(ti, a, lv) or not reachable_under(stack, a, "0", lv):
+                continue
+            cls = xeval(x["b"], a, lv)
+            if cls == "?":
+                raise AnalysisBroken("DensitySubGrid::interact: the wall distance `%s` cannot be evaluated for a vanishing "
+                                     "direction component" % C.pretty(x["b"])[:80])
+            nz += 1
+            n3 += 1
+            chk.require(cls in ("max", "inf"), "T3", "axis %d, direction == 0: the wall distance is never the minimum" % a,
+                        where(x, fn), "for a packet that does not move along axis %d the distance `%s` evaluates to %s: %s" %
+                        (a, C.pretty(x["b"])[:80], {"nan?": "NaN when the packet sits exactly on a cell face (0 x infinity)"}.get(cls, cls),
+                         "std::min / == comparisons with NaN make the step length, the path credited to the cell and the exit face "
+                         "wrong" if cls == "nan?" else "a finite distance of an axis the packet does not move along can become the "
+                         "step length"), function=fn["full"], construct="wall distance for direction == 0")
+    chk.floor("T3 zero direction", nz, 3)
     recognised = (seen_face >= 6 and seen_snap >= 6 and seen_step >= 6)
     # ties: EVERY axis whose wall distance equals the minimum is stepped (a packet leaving exactly through an edge or a
     # corner must be classified as such): each index step sits under `l[a] == lmin` for its own axis a, and the three axes
